@@ -19,8 +19,9 @@ enum { K_SCHED, K_POINTS, K_B0, K_B1, K_B2, K_PAIRS, K_TRIPLES, K_SELF, K_ACC, K
 static const char *const RAT[] = { NULL };
 
 /* ------------------------------------------------------------------ bodies */
-#define NBODY 10
-static const int BODY_TUNE[NBODY] = { 0, 3, 5, 9, 3, 0, 4, 10, 2, 4 };   /* used by the sequential part only (sp_ienv is process-global) */
+#define NBODY 12
+#define NPAIRS (NBODY * (NBODY + 1) / 2)
+static const int BODY_TUNE[NBODY] = { 0, 3, 5, 9, 3, 0, 4, 10, 2, 4, 3, 5 };   /* used by the sequential part only (sp_ienv is process-global) */
 static uint64_t hx(uint64_t h, const xs *s, int with_err)
 {
     int n = s->n; h = fnv(h, &s->info, sizeof s->info);
@@ -41,6 +42,17 @@ static uint64_t body_gssvx(int type, int trans, int stor, int colperm, int vals,
     xs_options(&c, &opt, &s); memset(&s.Glu, 0, sizeof s.Glu);
     xs_call(&s, &opt);
     uint64_t h = hx(0, &s, 1); xs_destroy(&s); return h;
+}
+/* the expert driver factoring into a caller workspace whose bytes are whatever the block held before (a ledger block: pre-filled with the case's fill byte) */
+static uint64_t body_gssvx_ws(int type, int base, int vals)
+{
+    const vf_type *T = vf_T(type); xs s; xs_init(&s, T, 6, base_pattern(6, base), vals, 0);
+    dmat B; make_rhs(T, &s.A_orig, 0, 0, 1, &B); xs_set_rhs(&s, &B, 0, 0);
+    superlu_options_t opt; vcase c; vcase_init(&c); c.colperm = 3; c.equil = 1; c.refine = 1; c.cond = 1; c.growth = 1; c.u = 1.0; c.permid = -1;
+    xs_options(&c, &opt, &s); memset(&s.Glu, 0, sizeof s.Glu);
+    long lw = 1L << 16; void *w = SUPERLU_MALLOC(lw); s.work = w; s.lwork = lw;
+    xs_call(&s, &opt);
+    uint64_t h = hx(0, &s, 1); xs_destroy(&s); SUPERLU_FREE(w); return h;
 }
 static uint64_t body_gssv(int type, int stor, int base)
 {
@@ -110,6 +122,8 @@ static uint64_t run_body(int k)
     case 6: return body_milu(3.0, 0.3, 6);
     case 9: return body_milu(2.0, 0.3, 6);
     case 7: return body_bridge();
+    case 10: return body_gssvx(TC, 0, 0, 3, 4, 2);          /* single complex with refinement and condition estimate */
+    case 11: return body_gssvx_ws(TZ, 5, 2);               /* factors in a caller workspace */
     default: return body_gssvx(TS, 1, 1, 2, 5, 5);
     }
 }
@@ -234,8 +248,8 @@ static const int TRIPLES[6][3] = { { 0, 1, 2 }, { 0, 4, 6 }, { 3, 5, 7 }, { 0, 0
 static void s_pair(const int *d, vcase *c) { int k = d[0], a = 0, b = 0; for (a = 0; a < NBODY; a++) { int cnt = NBODY - a; if (k < cnt) { b = a + k; break; } k -= cnt; } c->aux = 2; c->k = a + NBODY * b; c->aux2 = d[1]; c->lwork = 60000; }
 static void s_triple(const int *d, vcase *c) { c->aux = 3; c->k = TRIPLES[d[0]][0] + NBODY * TRIPLES[d[0]][1] + NBODY * NBODY * TRIPLES[d[0]][2]; c->aux2 = d[1]; c->lwork = 60000; }
 static void s_self2(const int *d, vcase *c) { c->aux = 2; c->k = d[0] + NBODY * d[0]; c->aux2 = 2; c->lwork = 60000; }
-static const family FSQ[] = { { "all 55 unordered pairs of 10 bodies (self pairs included) x preemption bound {0,1}", 2, { 55, 2 }, s_pair }, { "6 triples x preemption bound {0,1}", 2, { 6, 2 }, s_triple }, { "10 self pairs at preemption bound 2", 1, { 10 }, s_self2 } };
-static const family FST[] = { { "all 55 unordered pairs x preemption bound {0,1,2}", 2, { 55, 3 }, s_pair }, { "6 triples x preemption bound {0,1,2}", 2, { 6, 3 }, s_triple } };
+static const family FSQ[] = { { "all 78 unordered pairs of 12 bodies (self pairs included) x preemption bound {0,1}", 2, { NPAIRS, 2 }, s_pair }, { "6 triples x preemption bound {0,1}", 2, { 6, 2 }, s_triple }, { "12 self pairs at preemption bound 2", 1, { NBODY }, s_self2 } };
+static const family FST[] = { { "all 78 unordered pairs of 12 bodies x preemption bound {0,1,2}", 2, { NPAIRS, 3 }, s_pair }, { "6 triples x preemption bound {0,1,2}", 2, { 6, 3 }, s_triple } };
 static long sz_sched(int tier) { return tier ? fam_total(FST, 2) : fam_total(FSQ, 3); }
 static void dec_sched(int tier, long idx, vcase *c) { if (tier) { fam_decode(FST, 2, idx, c); c->lwork = 4000000; c->aux3 = 1800; } else { fam_decode(FSQ, 3, idx, c); c->aux3 = 70; } }
 static void desc_sched(int tier, char *b, size_t cap) { if (tier) fam_describe(FST, 2, b, cap); else fam_describe(FSQ, 3, b, cap); }
@@ -256,8 +270,8 @@ static void run_tsan(const vcase *c, vres *r)
     for (int t = 0; t < nthr; t++) if (ta[t].out != g_solo[ta[t].body]) { wk_fail(r, "output-differs-from-solo", "free-running thread %d (body %d) produced output that differs bit-wise from the same call executed alone", t, ta[t].body); return; }
 }
 static void s_tsan(const int *d, vcase *c) { int e[2] = { d[0], 0 }; s_pair(e, c); c->aux2 = d[1] ? 50 : 20; }
-static const family FTQ[] = { { "55 pairs of bodies, 4 free-running threads (2 per body) behind a barrier, 20 rounds", 2, { 55, 1 }, s_tsan } };
-static const family FTT[] = { { "55 pairs of bodies, 4 free-running threads, {20,50} rounds", 2, { 55, 2 }, s_tsan } };
+static const family FTQ[] = { { "78 pairs of bodies, 4 free-running threads (2 per body) behind a barrier, 20 rounds", 2, { NPAIRS, 1 }, s_tsan } };
+static const family FTT[] = { { "78 pairs of bodies, 4 free-running threads, {20,50} rounds", 2, { NPAIRS, 2 }, s_tsan } };
 static long sz_tsan(int tier) { return tier ? fam_total(FTT, 1) : fam_total(FTQ, 1); }
 static void dec_tsan(int tier, long idx, vcase *c) { if (tier) fam_decode(FTT, 1, idx, c); else fam_decode(FTQ, 1, idx, c); }
 static void desc_tsan(int tier, char *b, size_t cap) { if (tier) fam_describe(FTT, 1, b, cap); else fam_describe(FTQ, 1, b, cap); }
